@@ -377,3 +377,58 @@ def case_summary(case):
             ops.append(op.kind)
     return {"name": case.name, "columns": cols, "codec": case.options.codec, "page_size": case.options.page_size,
             "ops": " ".join(ops) + (" ..." if len(case.ops) > 12 else "")}
+
+
+# ----------------------------------------------------------------------------- model tie
+
+CODEC_ID = {"UNCOMPRESSED": 0, "SNAPPY": 1, "GZIP": 2, "LZ4": 5, "ZSTD": 6, "LZ4_RAW": 7}
+TYPE_TOK = {"BOOLEAN": "B", "INT32": "I32", "INT64": "I64", "FLOAT": "F", "DOUBLE": "D", "BYTE_ARRAY": "BA",
+            "FIXED_LEN_BYTE_ARRAY": "FL"}
+MODEL_CODECS = ("UNCOMPRESSED", "SNAPPY", "LZ4")      # codecs whose compressor is modelled concretely
+
+
+def model_line(case):
+    """The extracted writer model's input line for `case` (ocaml/run_writer.ml)."""
+    o = case.options
+    # (the driver's OPT line cannot express an empty created_by: "-" = NULL pointer = the library's default)
+    cb = "NULL" if (not o.created_by or o.null_options) else o.created_by.encode().hex()
+    page = (1 << 20) if o.null_options else o.page_size
+    codec = 0 if o.null_options else CODEC_ID[o.codec]
+    t = ["wr", str(codec), str(page), cb, str(len(case.schema.columns))]
+    for c in case.schema.columns:
+        t.append(f"{c.name.encode().hex() or '-'}:{TYPE_TOK[c.ptype]}:{'O' if c.rep == 'OPTIONAL' else 'R'}:{c.type_length}")
+    for op in case.ops:
+        if op.kind == "batch":
+            col = case.schema.columns[op.col]
+            vals = [r for r in op.rows if r is not None]
+            if op.nodefs:
+                defs = "-"
+            elif col.rep == "OPTIONAL" or op.force_defs:
+                defs = "".join("0" if r is None else "1" for r in op.rows) or "E"
+            else:
+                defs = "-"
+            vt = ",".join((v.hex() or "x") for v in vals) or "-"
+            t.append(f"B:{op.col}:{len(op.rows)}:{defs}:{vt}")
+        elif op.kind == "new_row_group":
+            t.append("N")
+        elif op.kind == "close":
+            t.append("C")
+        else:
+            return None
+    return " ".join(t)
+
+
+def model_size(case):
+    """Bytes of values in the history (the extracted model computes with inductive numbers: keep cases small)."""
+    return sum(len(r) + 1 for op in case.ops if op.kind == "batch" for r in op.rows if r is not None) + 8 * len(case.ops)
+
+
+def status_codes(st):
+    """Statuses of the write history as the integers the model prints (create excluded)."""
+    out = []
+    for s in st:
+        w = s.split()
+        if w[0] in ("create", "schema_create", "schema_add_column"):
+            continue
+        out.append(0 if w[-1] == "OK" else int(w[2]) if len(w) > 2 and w[1] == "ERR" else -1)
+    return out
